@@ -213,6 +213,21 @@ def attribution(ctx, rep, rule):
             elif e[0] == 'getvalue' and e[2] is None:
                 hits.append(('%s: getvalue() of a buffer that is not installed' % tr.method, tr,
                              'reads %s which is not the current sys.stdout/sys.stderr' % e[1]))
+        # "the output of a failing test is shown completely": once a test has reported a failure or
+        # an error, what it writes afterwards must not end in a buffer that is emptied without
+        # being shown
+        if tr.pre.get('had_bad'):
+            shown = {kws_[k_][1] for e in tr.events if e[0] == 'fmt' and e[1] & BAD_REPORTS
+                     for kws_ in [dict(e[3])] for k_ in kws_ if kws_[k_][0] == 'cap'}
+            for chan in ('sys.stdout', 'sys.stderr'):
+                v = tr.pre.get(chan)
+                if was_buf[chan] and tr.pre.get('dirty:' + v[1]) and chan not in shown and \
+                        any(e[0] == 'truncate' and e[1] == v[1] for e in tr.events):
+                    hits.append(('%s: output written after a reported failure is discarded (%s)'
+                                 % (tr.method, chan), tr,
+                                 'the test has already reported a failure/error; %s was buffered '
+                                 'again afterwards and %s empties that buffer without showing it'
+                                 % (chan, tr.method)))
         # after a restore the buffers must be clean again
         if tr.dst in ('IDLE', 'STOPPED'):
             for k, v in tr.post.items():
@@ -322,3 +337,66 @@ def tests_run_counter(ctx, rep, rule):
                          'after one test testsRun must have grown by exactly countTestCases()'))
     _report(ctx, rep, rule, hits, 'testsRun grows by exactly countTestCases() per test on every '
             'protocol word', n, floor=20)
+
+
+def driver_brackets(ctx, rep, R):
+    """The typestate rules assume the *driver protocol*: every startTest is followed by stopTest
+    whatever happens in between.  For unittest that is cross-checked against the stdlib sources
+    (sa.protocheck); the post-mortem loop of runner.run_tests drives the result itself, so here the
+    same fact is decided on its CFG with exception edges: a debugged test may raise anything and a
+    result callback may raise EndRun, and still every path from ``result.startTest(test)`` to any
+    exit of the function passes ``result.stopTest(test)``; the events fired in between are the ones
+    of the V-debug protocol table (addSkip / addError / addSuccess, at most one)."""
+    import ast
+    from sa.cfg import Catalogue, T_exact, build_cfg
+    from .common import USER_TOKENS, dotted, nodes_calling
+    fi = ctx.model.func('runner.run_tests')
+    res = None
+    for n in ast.walk(fi.node):          # the local bound to TestResult(...)
+        if isinstance(n, ast.Assign) and isinstance(n.value, ast.Call) and \
+                (dotted(n.value.func) or '').split('.')[-1] == 'TestResult' and \
+                isinstance(n.targets[0], ast.Name):
+            res = n.targets[0].id
+    if res is None:
+        rep.undecide(R, 'driver', 'no local bound to TestResult(...) in runner.run_tests')
+        return
+
+    def src(call):
+        f = call.func
+        if isinstance(f, ast.Attribute) and f.attr == 'debug' and not call.args:
+            return USER_TOKENS
+        if isinstance(f, ast.Attribute) and isinstance(f.value, ast.Name) and f.value.id == res and \
+                f.attr.startswith('add'):
+            return [T_exact('EndRun')]
+        return None
+    g = build_cfg(fi.node, ctx.hier, Catalogue(src), fi.module, noreturn=ctx.noreturn_pred(fi),
+                  name=fi.qualname)
+
+    def calls(attr):
+        return nodes_calling(g, lambda c: isinstance(c.func, ast.Attribute) and c.func.attr == attr
+                             and isinstance(c.func.value, ast.Name) and c.func.value.id == res)
+    S, T = calls('startTest'), calls('stopTest')
+    rep.floor(R, len(S), 1, 'result.startTest sites driven by the package itself')
+    ok = bool(S) and bool(T)
+    path = None
+    if ok:
+        starts = [d for x in S for d, k in g.succ[x] if k != 'exc']
+        ok, w = g.every_path_passes(starts, [g.exit, g.raise_exit], set(T), include_start=True)
+        if not ok and w is not None:
+            path = g.describe_path(g.path(starts, w, avoid=set(T), include_start=True) or [])
+    rep.check(ok, R, 'post-mortem loop of run_tests: every startTest is followed by stopTest on every '
+              'exit (a debugged test may raise anything, a callback may raise EndRun)',
+              'the loop that drives the result in post-mortem mode can leave a started test without '
+              'stopTest (e.g. when addError ends the run with EndRun): the per-test tear-down of the '
+              'layers, the stream restore and the thread check of that test are skipped',
+              key='driver:stopTest', func=fi.qualname, where=ctx.where(fi, fi.node), path=path)
+    # at most one result event between startTest and stopTest, of the modelled kinds
+    ev = {a: calls(a) for a in ('addSkip', 'addError', 'addSuccess', 'addFailure',
+                                'addExpectedFailure', 'addUnexpectedSuccess', 'addSubTest')}
+    used = sorted(a for a, ns in ev.items() if ns and any(
+        n in g.reach(S, avoid=set(T)) for n in ns))
+    rep.check(set(used) <= {'addSkip', 'addError', 'addSuccess'}, R,
+              'events fired by the post-mortem loop: %s (the V-debug table)' % used,
+              'the post-mortem loop fires %s; the V-debug protocol table models addSkip / addError / '
+              'addSuccess only' % used, key='driver:events', func=fi.qualname,
+              where=ctx.where(fi, fi.node))
